@@ -696,12 +696,13 @@ def _register_capabilities_hooks(converter: cattrs.Converter) -> cattrs.Converte
         assert isinstance(object_, list)
         if len(object_) == 0:
             return []
-        if "deprecated" in object_[0]:
-            return [
-                converter.structure(item, lsp_types.SymbolInformation)
-                for item in object_
-            ]
-        elif ("data" in object_[0]) or ("range" not in object_[0]["location"]):
+        # Both alternatives are arrays of one kind. Only a WorkspaceSymbol can carry
+        # `data` or a location without a range, and any element may be the one that does.
+        if any(
+            "deprecated" not in item
+            and ("data" in item or "range" not in item["location"])
+            for item in object_
+        ):
             return [
                 converter.structure(item, lsp_types.WorkspaceSymbol) for item in object_
             ]
